@@ -282,7 +282,8 @@ def handle_connect_contract(world, target):
     def cbs_same(c):
         s_, k_ = z3.Consts('cs_s cs_k', V)
         cb0, cb1 = c.pre.get(*CBS), c.post.get(*CBS)
-        return z3.And(z3.ForAll([s_, k_], z3.And(cb_present(c.post, s_, k_) == cb_present(c.pre, s_, k_), cb_val(c.post, s_, k_) == cb_val(c.pre, s_, k_))),
+        return z3.And(z3.ForAll([s_, k_], z3.And(cb_present(c.post, s_, k_) == cb_present(c.pre, s_, k_),
+                                                 z3.Implies(cb_present(c.pre, s_, k_), cb_val(c.post, s_, k_) == cb_val(c.pre, s_, k_)))),
                       z3.ForAll([s_], cb1.c['dom'][s_] == cb0.c['dom'][s_]), *cb_ok(c.post).values())
 
     def new_session(c, r):
